@@ -768,6 +768,14 @@ theorem slowPath_post (l : Log) (p : Nat) (E : List Entry) (hl : LogOK l)
 def Accepts (st : FState) (r : Req) : Prop :=
   st.term ≤ r.term ∧ ((r.prev = 0 ∧ r.prevTerm = 0) ∨ st.log.entryTerm r.prev = some r.prevTerm)
 
+instance (st : FState) (r : Req) : Decidable (Accepts st r) := by unfold Accepts; infer_instance
+
+theorem stepReq_fst (st : FState) (r : Req) : (stepReq st r).1 = (stepReqT st r).1 := rfl
+theorem stepReq_snd (st : FState) (r : Req) : (stepReq st r).2 = (stepReqT st r).2.1 := rfl
+
+theorem isEmpty_append' (a b : List Entry) : (a ++ b).isEmpty = (a.isEmpty && b.isEmpty) := by
+  cases a <;> simp
+
 theorem checkLegal_success_iff (t : Nat) (r : Req) (l : Log) :
     (checkLegal t r l).1.isSuccess = true ↔
       t ≤ r.term ∧ ((r.prev = 0 ∧ r.prevTerm = 0) ∨ l.entryTerm r.prev = some r.prevTerm) := by
@@ -842,5 +850,182 @@ theorem stepReq_rejected {st : FState} {r : Req} (h : ¬ Accepts st r) :
     · rename_i hs
       exact absurd ((checkLegal_success_iff _ _ _).mp hs) h
     · exact ⟨rfl, rfl⟩
+
+/-! ## merging one more request into the accumulated one -/
+
+theorem wf_parts {l : Log} (hwf : l.wf = true) :
+    gapFree l.ents = true ∧ (∀ e ∈ l.ents, 1 ≤ e.index) ∧
+      (l.pIdx = 0 ∨ l.ents = [] ∨ l.firstIdx = l.pIdx + 1) := by
+  simp only [Log.wf, Bool.and_eq_true, Bool.or_eq_true, List.isEmpty_iff, decide_eq_true_eq, beq_iff_eq] at hwf
+  obtain ⟨⟨hg, h1⟩, hb⟩ := hwf
+  refine ⟨hg, ?_, ?_⟩
+  · intro e he
+    rcases h1 with h | h
+    · rw [h] at he; simp at he
+    · have := contigFrom_index_ge ((gapFree_iff _).mp hg) e he
+      rw [Log.firstIdx_eq] at h; omega
+  · rcases hb with (h | h) | h
+    · exact Or.inl h
+    · exact Or.inr (Or.inl h)
+    · exact Or.inr (Or.inr h)
+
+/-- a well-formed log that answers `entry_term(prev) = Some(_)` holds `prev` inside it, or right before
+    its first entry (purge boundary), or is empty. -/
+theorem att_of_entryTerm {l : Log} (hwf : l.wf = true) {prev t : Nat} (h : l.entryTerm prev = some t) :
+    l.ents = [] ∨ (l.firstIdx ≤ prev + 1 ∧ prev ≤ l.lastIdx) := by
+  obtain ⟨hg, h1, hb⟩ := wf_parts hwf
+  by_cases hne : l.ents = []
+  · exact Or.inl hne
+  · right
+    have hbd := gapFree_bounds hg hne
+    have hp := lastOf_pos h1 hne
+    unfold Log.entryTerm at h
+    rw [Log.lastIdx_eq, Log.firstIdx_eq] at *
+    split at h
+    · split at h
+      · rename_i hp'
+        simp only [Bool.and_eq_true, decide_eq_true_eq, beq_iff_eq] at hp'
+        rcases hb with hb | hb | hb
+        · omega
+        · exact absurd hb hne
+        · omega
+      · simp at h
+    · rename_i hr
+      simp only [Bool.or_eq_true, beq_iff_eq, decide_eq_true_eq, not_or, Nat.not_lt] at hr
+      omega
+
+structure ChainStep (l : Log) (acc r : Req) : Prop where
+  seg : segOK l = true
+  wf : l.wf = true
+  accA : (acc.prev = 0 ∧ acc.prevTerm = 0) ∨ l.entryTerm acc.prev = some acc.prevTerm
+  contigA : acc.contig = true
+  contigR : r.contig = true
+  chain : r.prev = acc.prev + acc.ents.length
+  pt : prevTermOK acc r = true
+  mono : termsMono (acc.ents ++ r.ents) = true
+
+theorem ChainStep.logok {l : Log} {acc r : Req} (h : ChainStep l acc r) : LogOK l :=
+  ⟨(wf_parts h.wf).1, (wf_parts h.wf).2.1, h.seg⟩
+
+/-- facts about the log an accepted non-empty request leaves: `LogOK`, and the request's last entry (up to
+    payload) sits at `prev + len`. -/
+theorem logAfter_post {l : Log} {acc : Req} (hseg : segOK l = true) (hwf : l.wf = true)
+    (hacc : (acc.prev = 0 ∧ acc.prevTerm = 0) ∨ l.entryTerm acc.prev = some acc.prevTerm)
+    (hc : acc.contig = true) (hm : termsMono acc.ents = true) {x : Entry} (hx : acc.ents.getLast? = some x) :
+    LogOK (logAfter l acc) ∧
+      ∃ z ∈ (logAfter l acc).ents, z.index = acc.prev + acc.ents.length ∧ z.term = x.term := by
+  have hlok : LogOK l := ⟨(wf_parts hwf).1, (wf_parts hwf).2.1, hseg⟩
+  have hne : acc.ents ≠ [] := List.ne_nil_of_mem (List.mem_of_getLast? hx)
+  have hemp : acc.ents.isEmpty = false := by simpa using hne
+  unfold Req.contig at hc
+  simp only [logAfter, hemp, Bool.false_eq_true, ↓reduceIte]
+  by_cases hv : acc.prev = 0 ∧ acc.prevTerm = 0
+  · -- reset path
+    have h1 : (filterAppend l acc.prev acc.prevTerm acc.ents).1 = appendE (resetL l) acc.ents := by
+      simp [filterAppend, hv.1, hv.2]
+    rw [h1]
+    have hxi : x.index = acc.prev + acc.ents.length := by
+      have := lastOf_contig hc hne
+      simp only [lastOf, hx] at this
+      have hpos : 0 < acc.ents.length := List.length_pos_iff.mpr hne
+      omega
+    refine ⟨⟨?_, ?_, ?_⟩, x, ?_, hxi, rfl⟩
+    · simp only [appendE_ents, resetL_ents, List.nil_append]; exact gapFree_of_contigFrom hc
+    · intro y hy
+      simp only [appendE_ents, resetL_ents, List.nil_append] at hy
+      have := contigFrom_index_ge hc y hy; omega
+    · exact segOK_appendE (segOK_resetL l) (b := acc.prev + 1) (by simp [resetL_ents]) hc
+    · simp only [appendE_ents, resetL_ents, List.nil_append]; exact List.mem_of_getLast? hx
+  · have hacc' : l.entryTerm acc.prev = some acc.prevTerm := by
+      rcases hacc with h | h; exact absurd h hv; exact h
+    have hatt := att_of_entryTerm hwf hacc'
+    have hr : ReqOK l acc.prev acc.ents := ⟨hc, hm, hatt⟩
+    rw [(filterAppend_eq_slow l acc.prev acc.prevTerm acc.ents hlok hr hv hacc').1]
+    exact slowPath_post l acc.prev acc.ents hlok hc hatt hx
+
+theorem mergeReq_ents (acc r : Req) : (mergeReq acc r).ents = acc.ents ++ r.ents := rfl
+theorem mergeReq_prev (acc r : Req) : (mergeReq acc r).prev = acc.prev := rfl
+theorem mergeReq_prevTerm (acc r : Req) : (mergeReq acc r).prevTerm = acc.prevTerm := rfl
+theorem mergeReq_term (acc r : Req) : (mergeReq acc r).term = acc.term := rfl
+theorem mergeReq_commit (acc r : Req) : (mergeReq acc r).commit = max acc.commit r.commit := rfl
+
+/-- **The merge step on logs.** Handling `acc ⊕ r` leaves the log that handling `acc`, then `r`, leaves; and
+    `r` is accepted after `acc`. -/
+theorem logAfter_merge {l : Log} {acc r : Req} (h : ChainStep l acc r) :
+    ((r.prev = 0 ∧ r.prevTerm = 0) ∨ (logAfter l acc).entryTerm r.prev = some r.prevTerm) ∧
+    logAfter l (mergeReq acc r) = logAfter (logAfter l acc) r := by
+  have hlok := h.logok
+  have hcA : contigFrom (acc.prev + 1) acc.ents = true := h.contigA
+  have hcR : contigFrom (r.prev + 1) r.ents = true := h.contigR
+  have hmA : termsMono acc.ents = true := (termsFrom_append h.mono).1
+  have hmR : termsMono r.ents = true := (termsFrom_append h.mono).2
+  cases hx : acc.ents.getLast? with
+  | none =>
+    -- acc is a heartbeat: same prev, same prev term, nothing changed yet
+    have hnil : acc.ents = [] := List.getLast?_eq_none_iff.mp hx
+    have hpt : r.prevTerm = acc.prevTerm := by
+      have := h.pt; simp only [prevTermOK, hx, beq_iff_eq] at this; exact this
+    have hprev : r.prev = acc.prev := by have := h.chain; simp [hnil] at this; exact this
+    have hl1 : logAfter l acc = l := by simp [logAfter, hnil]
+    rw [hl1]
+    refine ⟨by rw [hprev, hpt]; exact h.accA, ?_⟩
+    simp only [logAfter, mergeReq_ents, mergeReq_prev, mergeReq_prevTerm, hnil, List.nil_append, hprev, hpt]
+  | some x =>
+    have hne : acc.ents ≠ [] := List.ne_nil_of_mem (List.mem_of_getLast? hx)
+    have hpos : 0 < acc.ents.length := List.length_pos_iff.mpr hne
+    have hpt : r.prevTerm = x.term := by
+      have := h.pt; simp only [prevTermOK, hx, beq_iff_eq] at this; exact this
+    obtain ⟨hl1ok, z, hz, hzi, hzt⟩ := logAfter_post h.seg h.wf h.accA h.contigA hmA hx
+    have hrnv : ¬ (r.prev = 0 ∧ r.prevTerm = 0) := by have := h.chain; omega
+    have hraccept : (logAfter l acc).entryTerm r.prev = some r.prevTerm := by
+      have := entryTerm_mem hl1ok.gap hl1ok.pos hz
+      rw [hzi, ← h.chain, hzt, ← hpt] at this; exact this
+    refine ⟨Or.inr hraccept, ?_⟩
+    cases hE2 : r.ents with
+    | nil =>
+      simp only [logAfter, mergeReq_ents, mergeReq_prev, mergeReq_prevTerm, hE2, List.append_nil, List.isEmpty_nil,
+        ↓reduceIte]
+    | cons y ys =>
+      have hemp1 : acc.ents.isEmpty = false := by simpa using hne
+      have hemp12 : (acc.ents ++ y :: ys).isEmpty = false := by simp
+      have hzb := mem_bounds hl1ok.gap hz
+      have hatt1 : (logAfter l acc).ents = [] ∨
+          ((logAfter l acc).firstIdx ≤ r.prev + 1 ∧ r.prev ≤ (logAfter l acc).lastIdx) := by
+        right; rw [Log.firstIdx_eq, Log.lastIdx_eq, h.chain]; omega
+      have hr2 : ReqOK (logAfter l acc) r.prev (y :: ys) := ⟨by rw [← hE2]; exact hcR, by rw [← hE2]; exact hmR, hatt1⟩
+      have hseq : logAfter (logAfter l acc) r = (slowPath (logAfter l acc) (y :: ys)).1 := by
+        have := (filterAppend_eq_slow (logAfter l acc) r.prev r.prevTerm (y :: ys) hl1ok hr2 hrnv hraccept).1
+        simp only [logAfter, hE2, List.isEmpty_cons, Bool.false_eq_true, ↓reduceIte] at this ⊢
+        exact this
+      rw [hseq]
+      have hc12 : contigFrom (acc.prev + 1) (acc.ents ++ y :: ys) = true := by
+        rw [contigFrom_append]
+        refine ⟨hcA, ?_⟩
+        rw [hE2, h.chain] at hcR
+        have : acc.prev + 1 + acc.ents.length = acc.prev + acc.ents.length + 1 := by omega
+        rw [this]; exact hcR
+      simp only [logAfter, mergeReq_ents, mergeReq_prev, mergeReq_prevTerm, hE2, hemp12, hemp1, Bool.false_eq_true,
+        ↓reduceIte]
+      by_cases hv : acc.prev = 0 ∧ acc.prevTerm = 0
+      · -- reset path: everything is appended to the emptied log
+        have h1 : (filterAppend l acc.prev acc.prevTerm (acc.ents ++ y :: ys)).1 =
+            appendE (resetL l) (acc.ents ++ y :: ys) := by simp [filterAppend, hv.1, hv.2]
+        have h2 : (filterAppend l acc.prev acc.prevTerm acc.ents).1 = appendE (resetL l) acc.ents := by
+          simp [filterAppend, hv.1, hv.2]
+        rw [h1, h2]
+        have hlast : (appendE (resetL l) acc.ents).lastIdx < y.index := by
+          have hl := lastOf_contig hcA hne
+          have hy : y.index = acc.prev + acc.ents.length + 1 := by
+            rw [hE2, h.chain] at hcR; exact ((contigFrom_cons _ _ _).mp hcR).1
+          rw [Log.lastIdx_eq, appendE_ents, resetL_ents, List.nil_append, hl]; omega
+        rw [slowPath_all_beyond _ y ys hlast, appendE_appendE]
+      · have hacc' : l.entryTerm acc.prev = some acc.prevTerm := by
+          rcases h.accA with h' | h'; exact absurd h' hv; exact h'
+        have hatt := att_of_entryTerm h.wf hacc'
+        have hr12 : ReqOK l acc.prev (acc.ents ++ y :: ys) := ⟨hc12, by rw [← hE2]; exact h.mono, hatt⟩
+        have hr1 : ReqOK l acc.prev acc.ents := ⟨hcA, hmA, hatt⟩
+        rw [(filterAppend_eq_slow l acc.prev acc.prevTerm _ hlok hr12 hv hacc').1,
+            (filterAppend_eq_slow l acc.prev acc.prevTerm _ hlok hr1 hv hacc').1]
+        exact slowPath_append l acc.prev acc.ents (y :: ys) hc12
 
 end DEngine.Repl
